@@ -167,14 +167,16 @@ def useRunCall (v : Variant) (st : St) (f : Nat) (posts : List Func) (r : MakeRe
 
 /-! ### collecting the tasks of a job -/
 
-/-- `close_dependency_graph`: `deps t` = hard and soft dependencies of `t`; `fuel` bounds the number of rounds -/
+/-- `close_dependency_graph`: `deps t` = hard and soft dependencies of `t`; `fuel` bounds the number of rounds
+(the real loop has no bound: `UseM.close_complete` shows that the number of tasks + 1 rounds always suffice) -/
 def closeLoop (deps : Nat → List Nat) : Nat → List Nat → List Nat → List Nat
   | 0, _, all => all
   | fuel + 1, queue, all =>
     if queue.isEmpty then all
     else
-      let nxt := (queue.flatMap deps).eraseDups
-      closeLoop deps fuel nxt (all ++ nxt.filter (· ∉ all))
+      -- only the tasks seen for the first time are visited in the next round
+      let nxt := (queue.flatMap deps).eraseDups.filter (· ∉ all)
+      closeLoop deps fuel nxt (all ++ nxt)
 
 def closeDeps (deps : Nat → List Nat) (fuel : Nat) (tasks : List Nat) : List Nat :=
   let q := tasks.eraseDups
